@@ -322,7 +322,9 @@ pub fn gen_outer(rng: &mut Rng) -> String {
 }
 
 /// (template with placeholder U+0001, repeated token): each is run once with 100 000 repetitions in a 64 KiB stack.
-pub const RUN_TEMPLATES: [(&str, &str); 30] = [
+pub const RUN_TEMPLATES: [(&str, &str); 34] = [
+    // mixed character widths: every offset modulo any buffer size is reached by a multi-byte character
+    ("\"\u{1}\"", "a😀"), ("\"\u{1}\"", "é😀a"), ("\"x\u{1}\"", "ab\\ud83d\\ude00"), ("{\"\u{1}\":0}", "€a😀"),
     ("\u{1}1", " "), ("1\u{1}", "\n"), ("[\u{1}1]", " "), ("[1\u{1}]", "\t"), ("[1,\u{1}2]", " "), ("[1\u{1},2]", "\r"), ("{\u{1}\"a\":1}", " "), ("{\"a\"\u{1}:1}", " "),
     ("{\"a\":\u{1}1}", "\n"), ("{\"a\":1\u{1}}", " "), ("{\"a\":1,\u{1}\"b\":2}", " "), ("{\"a\":1,\"b\"\u{1}:2}", "\t"), ("{\"a\":1\u{1},\"b\":2}", " "), ("[\u{1}]", " "), ("{\u{1}}", "\n"),
     ("1\u{1}", "7"), ("[1.\u{1}]", "7"), ("[1e\u{1}]", "7"), ("\"\u{1}\"", "a"), ("\"\u{1}\"", "😀"), ("\"\u{1}\"", "\\n"), ("\"\u{1}\"", "\\u00e9"), ("\"\u{1}\"", "\\ud83d\\ude00"),
